@@ -7,7 +7,7 @@ from __future__ import annotations
 
 import numpy as np
 
-from mc.core import Report, viol, collect_samples
+from mc.core import Report, viol, collect_samples, Isolated, Sequence
 from mc.histories import explore_getter_orders
 from mc.oracles.s3 import rotation_voronoi
 
@@ -109,6 +109,24 @@ def cases(tier):
     return [{"alg": a, "N": n} for n in Ns for a in ("cube4D", "randomQ")]
 
 
+def _label(c):
+    return f"{c['alg']}_{c['N']}"
+
+
+def seq_cases(tier):
+    """Several grids built in ONE fresh process: every ordered pair of algorithms at the same N, the same grid again after
+    another one, a neighbouring N in between."""
+    algs = ('cube4D', 'randomQ')
+    out = []
+    for N in ((8, 15) if tier == "quick" else (5, 8, 12, 15, 24, 30)):
+        for a in algs:
+            for b in algs:
+                if a != b:
+                    out.append({"seq": [{"alg": a, "N": N}, {"alg": b, "N": N}, {"alg": a, "N": N}]})
+            out.append({"seq": [{"alg": a, "N": N}, {"alg": a, "N": N + 1}, {"alg": a, "N": N}, {"alg": a, "N": N - 1}]})
+    return out
+
+
 def run(ctx):
     rep = Report(PROPERTY, "exploration")
     cs = cases(ctx.tier)
@@ -117,6 +135,10 @@ def run(ctx):
     ocs = [{"order": True, "alg": a, "N": n, "lo": lo, "hi": lo + 15} for lo in range(0, 150, 15) for a, n in [('cube4D', 6), ('randomQ', 7)]]
     ores = ctx.pmap(order_case, ocs, chunksize=1, recheck=1)
     for r in ores:
+        rep.add_violations(r["violations"])
+    scs = seq_cases(ctx.tier)
+    sres = ctx.pmap(Isolated(Sequence(run_case, _label)), scs, chunksize=1, recheck=1)
+    for r in sres:
         rep.add_violations(r["violations"])
     for r in res:
         rep.add_violations(r["violations"])
@@ -133,6 +155,7 @@ def run(ctx):
         "worst_border_deviation": max(r.get("worst_border", 0.0) for r in res),
         "pairs_touching_through_two_faces": sum(r["two_face"] for r in res),
         "getter_order_words": sum(r["words"] for r in ores), "getter_order_calls": sum(r["calls"] for r in ores),
+        "histories_in_one_process": len(scs), "grids_in_histories": sum(r["members"] for r in sres),
         "exhaustive": True, "bound": {"N": "4..40, 66, 70" if ctx.tier == "quick" else "4..80, 100, 150, 272"},
     }
     rep.assumptions = ["border tolerance 1e-6 absolute (measured deviation 3e-9 after fix F14)", "distance tolerance 1e-7",
@@ -143,4 +166,6 @@ def run(ctx):
 def replay(case):
     if case.get("order"):
         return order_case(case)["violations"]
+    if "seq" in case:
+        return Sequence(run_case, _label)(case)["violations"]
     return run_case(case)["violations"]
